@@ -27,6 +27,46 @@ pub fn sched(point: &'static str) {
     if let Some(hook) = hook {
         hook(point);
     }
+    AT_LOCK.with(|c| c.set(point == "lock"));
+}
+
+thread_local! {
+    /// the last scheduling point of this thread was an explicit `sched("lock")`
+    static AT_LOCK: std::cell::Cell<bool> = const { std::cell::Cell::new(false) };
+}
+
+/// The registry lock as the exporter sees it under `--cfg ts_rs_verif`: *every* acquisition is a
+/// scheduling point named "lock" - also one that no explicit `sched("lock")` announces - so that a
+/// harness never has to guess whether a step may block.
+pub struct Mutex<T>(std::sync::Mutex<T>);
+
+impl<T: Default> Default for Mutex<T> {
+    fn default() -> Self {
+        Mutex(Default::default())
+    }
+}
+
+impl<T> Mutex<T> {
+    pub fn lock(&self) -> std::sync::LockResult<std::sync::MutexGuard<'_, T>> {
+        // an explicit `sched("lock")` immediately before stands for this acquisition
+        if !AT_LOCK.with(|c| c.replace(false)) {
+            sched("lock");
+            AT_LOCK.with(|c| c.set(false));
+        }
+        self.0.lock()
+    }
+
+    pub fn try_lock(&self) -> std::sync::TryLockResult<std::sync::MutexGuard<'_, T>> {
+        self.0.try_lock()
+    }
+
+    pub fn is_poisoned(&self) -> bool {
+        self.0.is_poisoned()
+    }
+
+    pub fn clear_poison(&self) {
+        self.0.clear_poison()
+    }
 }
 
 /// Install (or remove) the function deciding the order in which generated
